@@ -120,6 +120,9 @@ def check_effective_bc(prog: Program, rep, mb, rule: str) -> None:
                         problems.append(f'{label}: entry {k} of the model is {rh!r}')
                         continue
                     eff = A.sym(f'c{k}') * mbc.rf / cd.rf
+                    if any('@' in s_ or s_.startswith('<') for s_ in eff.symbols()):
+                        raise AnalysisError(f'DragModelMultiBC: entry {k} of the model depends on `{sorted(s_ for s_ in eff.symbols() if "@" in s_ or s_.startswith("<"))[0]}`, '
+                                            f'a loop the evaluator could not read pass by pass')
                     want = expected(points, m)
                     n_entries += 1
                     if not eff.equals(want):
